@@ -53,9 +53,10 @@ CHECKS.update({
                     "into the next chunk; Eof only when nothing is left; reported offsets are absolute end positions; terminates, no panic, no "
                     "offset overflow. Tiling of successive calls is a one-step lemma + induction.",
             "note": "assumed: Chain + ByteArena::read_n deliver exactly min(count, available) bytes of carried ++ stream (no hard I/O errors), AnchoredSlice operations act on the exposed bytes; find_stuff_sequence is proved in the unit (rule N16); found and fixed F1 (block size 0/1)"},
-    "C11": {"engine": "kani+native", "design_ref": "DESIGN.md 5 (C11), 10.1",
-            "technique": "Kani bounded Hoare-triple harnesses against the Roughtime layout; full-usize-domain harness for the i32::MAX rule; native bounded cross-check of the same triple on long lists",
-            "text": _KB + "Layout, emitted == rough_tlv_len, MessageView round trip, stable tie order, new_from_sorted's rejection set, "
+    "C11": {"engine": "verus+kani+native", "design_ref": "DESIGN.md 5 (C11), 10.1, 10.13",
+            "technique": "Verus contract on the real MessageWrapper::compute_len (acceptance / length rule, every list length, every usize value length); Kani bounded Hoare-triple harnesses against the Roughtime layout; full-usize-domain harness for the i32::MAX rule; native bounded cross-check of the same triple on long lists",
+            "text": "Verus (unit tlv_len) proves, for lists of every length and generic in the value type, that compute_len -- the rule all three constructors share -- "
+                    "accepts exactly within the i32::MAX limits, returns exactly 4 + 4(N-1) + 4N + sum of value lengths, and names the cause of each error. " + _KB + "Layout, emitted == rough_tlv_len, MessageView round trip, stable tie order, new_from_sorted's rejection set, "
                     "Cow variants; the length rule over ALL usize lengths via a value type with symbolic length. Nested messages (values that "
                     "are themselves messages) and long lists are checked by Engine C only (CBMC runs out of memory on the nesting harness).",
             "note": "BOUNDED: <= 2 pairs x 1-byte values quick (<= 3 x 2 thorough); recording sink instead of OwningIovec/Encoder (arena out of Kani's reach); defects that need many pairs (e.g. an unstable sort, which is stable below ~20 elements) are beyond Kani's bound and are reached only by Engine C, the native bounded cross-check (lists of up to 72 / 300 pairs; bounded, not proof)"},
@@ -96,7 +97,7 @@ CHECKS.update({
             "text": "snapshot() completes in one pass of its loop, returns the published pair, never panics and never touches the lock, from EVERY state of "
                     "the form a suspended writer can leave behind, with the lock held forever; try_update returns false without waiting when the lock is held and "
                     "behaves as update otherwise. Loop-free after unwinding + unwinding assertions => complete for the stated state space.",
-            "note": "sequential consistency at atomic-operation granularity; the writer's store order is NOT assumed: c18_snapshot_with_real_writer_cut_off_at_every_store runs the real advance_once and suspends it before each of its atomic stores; 4 concrete vouched pairs"},
+            "note": "get_base_time_unlocked: a harness of its own on the process-wide BASE_TIME (initial state, `now` on both sides of every staleness threshold) with the blocking lock forbidden; sequential consistency at atomic-operation granularity; the writer's store order is NOT assumed: c18_snapshot_with_real_writer_cut_off_at_every_store runs the real advance_once and suspends it before each of its atomic stores; 4 concrete vouched pairs"},
 })
 
 NOT_APPLICABLE = {
